@@ -77,5 +77,5 @@ func c08(r *core.Run) {
 		Kinds: []string{"sub", "sub", "sub", "unsub", "count", "pub", "pub", "pub", "pub", "cancel", "ctxerr", "wait"},
 		Ctxs:  []string{"c1", "c2", "c3"},
 		Cfgs:  allCfgs(func(c busdrv.Cfg) bool { return !c.PanicH })}
-	seqAndStress(r, "c08", "MCBus_c05", "MCBus_c08_gen.cfg", r.Pick(300, 5000), g, r.Pick(400, 6000), r.Pick(60, 1500), 808)
+	seqAndStress(r, "c08", "MCBus_c05", "MCBus_c08_gen.cfg", r.Pick(300, 1500), g, r.Pick(400, 4000), r.Pick(60, 600), 808)
 }
